@@ -1,4 +1,4 @@
-import ClusterVerif.Lemmas.C06F
+import ClusterVerif.Lemmas.C06S
 
 /-!
 # C06 — reported pin status is truthful and consistent between its two views
@@ -372,5 +372,131 @@ theorem gen_from_string :
     Gen.isPinned = [IpfsStatus.bug, .error, .direct, .recursive, .indirect, .unpinned].map (fun s =>
       [(-1 : Int), 0, 1, 2].map (fun d => ipfsIsPinned s d)) := by
   refine ⟨by decide, by decide, by decide⟩
+
+/-! ## Round 8 — the filter from its text form to the tracker (interpreted from regenerated tables) -/
+
+/-- The regenerated name table, composites and parsing / printing parameters are the documented ones:
+names and values distinct, no name contains the separator or a stripped character, every composite is the
+or of single statuses of the table, the named bits are 2¹ … 2¹², the table is the Spec's (as a set). -/
+theorem gen_filter_tables :
+    (namesC.map (·.1)).Nodup ∧ (namesC.map (·.2)).Nodup ∧
+    namesC.all (fun e => !e.1.contains ',' && !e.1.contains ' ' && !e.1.isEmpty) = true ∧
+    Gen.composites.all (fun c => c.2.foldl (· ||| ·) 0 == c.1 &&
+        c.2.all (fun k => Gen.statusNames.any (fun e => e.2 == k)) &&
+        Gen.statusNames.any (fun e => e.2 == c.1)) = true ∧
+    Gen.composites.map (·.1) = [stError, stQueued] ∧
+    namedMask = 8190 ∧ SpecS.named = namedMask ∧
+    Gen.statusNames.all (fun e => SpecS.names.contains e) = true ∧ SpecS.names.all (fun e => Gen.statusNames.contains e) = true ∧
+    (Gen.fromStrip, Gen.fromSep, Gen.fromCombine, Gen.stringJoin, Gen.stringExactFirst) = (" ", ",", "|", ",", true) := by
+  refine ⟨by decide, by decide, by decide, by decide, by decide, by decide, by decide, by decide, by decide, by decide⟩
+
+/-- `TrackerStatus.Match` as read from today's source (the returned expression, interpreted) is the model's
+`matchF` — for every status and every filter. A changed operator, constant or operand changes `matchG`. -/
+theorem match_interp (st f : Nat) : matchG st f = matchF st f := by
+  simp only [matchG, evalP, Gen.matchExpr, List.foldr, stepTok, binOp]
+  simp only [matchF]
+  by_cases h1 : f = 0 <;> by_cases h2 : st = 0 <;> by_cases h3 : st &&& f = 0 <;>
+    simp [b2n, h1, h2, h3, Nat.pos_iff_ne_zero]
+
+example : matchG 16 (16 ||| 4096) = true ∧ matchG 4 14 = true ∧ matchG 4 16 = false ∧ matchG 0 16 = true := by decide
+
+/-- `String`'s loop condition as read from the source is `k != 0 && st&k == k`. -/
+theorem loop_cond_interp (st k : Nat) : loopCondG st k = loopCond st k := by
+  simp only [loopCondG, evalP, Gen.stringLoopCond, List.foldr, stepTok, binOp, loopCond]
+  by_cases h1 : k = 0 <;> by_cases h2 : st &&& k = k <;> simp [b2n, h1, h2]
+
+/-- The REST handler and `ipfs-cluster-ctl` (guards interpreted from the source): a text is refused exactly
+when it is non-empty and names no status; otherwise the parsed value goes on unchanged. In particular a
+non-empty text never silently means "all". -/
+theorem rest_guard_law (cs : List Char) :
+    restFilter cs = (if parseC cs == 0 && !cs.isEmpty then none else some (parseC cs)) ∧
+    ctlFilter cs = restFilter cs := by
+  simp only [restFilter, ctlFilter, evalP, Gen.restGuard, Gen.ctlGuard, List.foldr, stepTok, binOp]
+  by_cases h1 : parseC cs = 0 <;> cases h2 : cs.isEmpty <;> simp [b2n, h1]
+
+theorem rest_never_widens (cs : List Char) (f : Nat) (h : restFilter cs = some f) (hne : cs ≠ []) : f ≠ 0 := by
+  have hl := (rest_guard_law cs).1
+  rw [h] at hl
+  have he : cs.isEmpty = false := by cases cs <;> simp_all
+  by_cases h0 : parseC cs = 0
+  · simp [h0, he] at hl
+  · simp [h0, he] at hl; omega
+
+example : restFilter "pinned, error".toList = some 30 ∧ restFilter "pinnedx".toList = none ∧ restFilter [] = some 0 := by decide
+
+/-- A comma-separated text means the union of its parts (token level: the `status |= st` loop). -/
+theorem parse_union (a b : List (List Char)) : parseToks (a ++ b) = parseToks a ||| parseToks b := by
+  simp only [parseToks, List.foldl_append]
+  rw [parseToks_acc]
+
+/-- Matching a union of two non-empty filters is matching one of them: with `filter_law`, the listing
+for `f ||| g` is the union of the listings for `f` and for `g`. -/
+theorem match_union (st f g : Nat) (hf : f ≠ 0) (hg : g ≠ 0) :
+    matchF st (f ||| g) = (matchF st f || matchF st g) := by
+  have hfg : f ||| g ≠ 0 := by
+    intro h; exact hf (Nat.or_eq_zero_iff.mp h).1
+  have e1 : (f == 0) = false := by rw [beq_eq_false_iff_ne]; exact hf
+  have e2 : (g == 0) = false := by rw [beq_eq_false_iff_ne]; exact hg
+  have e3 : (f ||| g == 0) = false := by rw [beq_eq_false_iff_ne]; exact hfg
+  by_cases hs : st = 0
+  · simp [matchF, hs]
+  · have e4 : (st == 0) = false := by rw [beq_eq_false_iff_ne]; exact hs
+    by_cases ha : st &&& f = 0 <;> by_cases hb : st &&& g = 0 <;>
+      simp [matchF, e1, e2, e3, e4, Nat.and_or_distrib_left, ha, hb, Nat.pos_iff_ne_zero]
+
+theorem listing_union (i : Input) (f g : Nat) (hup : i.ipfsUp = true) (hf : f ≠ 0) (hg : g ≠ 0) :
+    statusAll i (f ||| g) = (statusAll i 0).filter (fun e => matchF e.2 f || matchF e.2 g) := by
+  rw [filter_law i (f ||| g) hup]
+  congr 1
+  funext e
+  exact match_union e.2 f g hf hg
+
+/-- Splitting what `String` joined gives the tokens back (names have no comma). -/
+theorem split_join_names (order : List (List Char × Nat)) (f : Nat) (hsub : ∀ e ∈ order, e ∈ namesC)
+    (hne : printToks order f ≠ []) :
+    splitOnC sepChar (printC order f) = printToks order f := by
+  have hsep : sepChar = ',' := by decide
+  have hj : joinChar = ',' := by decide
+  have hnames : ∀ e ∈ namesC, ',' ∉ e.1 := by decide
+  unfold printC
+  rw [hsep, hj]
+  refine splitOnC_joinC ',' _ hne ?_
+  intro t ht
+  unfold printToks at ht
+  split at ht
+  · rename_i e he
+    simp only [List.mem_singleton] at ht
+    subst ht
+    have : e ∈ namesC := by
+      split at he
+      · exact List.mem_of_find?_eq_some he
+      · cases he
+    exact hnames e this
+  · simp only [List.mem_map, List.mem_filter] at ht
+    obtain ⟨e, ⟨hm, _⟩, rfl⟩ := ht
+    exact hnames e (hsub e hm)
+
+/-- the entry points between REST and the tracker hand the filter / cid on unchanged to the expected callee -/
+theorem gen_routes :
+    Gen.routes = [("*ClusterRPCAPI.StatusAll", "rpcapi.c.StatusAll(ctx, in)"),
+      ("*ClusterRPCAPI.StatusAllLocal", "rpcapi.c.StatusAllLocal(ctx, in)"),
+      ("*ClusterRPCAPI.Status", "rpcapi.c.Status(ctx, in)"), ("*ClusterRPCAPI.StatusLocal", "rpcapi.c.StatusLocal(ctx, in)"),
+      ("*PinTrackerRPCAPI.StatusAll", "rpcapi.tracker.StatusAll(ctx, in)"), ("*PinTrackerRPCAPI.Status", "rpcapi.tracker.Status(ctx, in)"),
+      ("*Cluster.StatusAll", "c.globalPinInfoSlice(ctx, \"PinTracker\", \"StatusAll\", filter)"),
+      ("*Cluster.StatusAllLocal", "c.tracker.StatusAll(ctx, filter)"),
+      ("*Cluster.Status", "c.globalPinInfoCid(ctx, \"PinTracker\", \"Status\", h)"),
+      ("*Cluster.StatusLocal", "c.tracker.Status(ctx, h)")] ∧
+    Gen.restCalls = ["Cluster.StatusAllLocal(filter)", "Cluster.StatusAll(filter)"] := by
+  refine ⟨by decide, by decide⟩
+
+/-- Full round trip for every mask and every map order — NOT proved in Lean this round (validated on the real
+`String`/`TrackerStatusFromString` by the Spec clause `fs_roundtrip` on every `fs` case). -/
+def print_parse_roundtrip : Prop :=
+  ∀ (order : List (List Char × Nat)) (f : Nat), order.Perm namesC → parseC (printC order f) = f &&& namedMask
+
+/-- what the Cluster RPC receives from the REST client — same status as `print_parse_roundtrip` -/
+def client_filter_law : Prop :=
+  ∀ (order : List (List Char × Nat)) (f : Nat), order.Perm namesC →
+    endToEnd order f = (if f ≠ 0 ∧ f &&& namedMask = 0 then none else some (f &&& namedMask))
 
 end CV.C06
